@@ -240,3 +240,9 @@ inductive ReturnType where
 def unwrapOpt {α : Type} : Option α → RustSem.Res α | some a => .ok a | none => .panic
 
 end RustExtern.SynTy
+
+/-- what `ParsedSylviaAttributes::new(attrs)` tells the reply code about one parameter: whether it carries `#[sv::payload(..)]` /
+`#[sv::data(..)]` (the parsers of those attributes are tied by the regenerated tables `payloadParams` / `dataParams`) -/
+structure RustExtern.ParsedAttrs (P D : Type) where
+  payload : Option P
+  data : Option D
